@@ -37,6 +37,7 @@ func (s Values) ValueDeduplicatedSet() Values {
 			addedDeprecated = curr.IsDeprecated
 		} else if addedDeprecated && !curr.IsDeprecated {
 			result[len(result)-1] = curr
+			addedDeprecated = false
 		}
 	}
 	return result
